@@ -30,7 +30,6 @@ struct vf_ghost {
   /* ghosts of the queue contracts (aq_contract.h) */
   _Bool i_am_consumer; void* lin_old; void* lin_new; unsigned lin_count; struct item* it_next_at_lin; unsigned mr_calls; struct item* mr_arg;
   /* this group */
-  _Bool on_io_thread;               /* currentThreadContext == this */
   int err;                          /* errno */
   unsigned enq_incs, enq_decs;      /* 0 -> 1 / 1 -> 0 transitions of an item's enqueued_ made by the verified call */
   unsigned eventfd_writes; uint64_t eventfd_value; size_t eventfd_len;
@@ -38,7 +37,7 @@ struct vf_ghost {
   unsigned exec; struct item* exec_item; exec_fn carried;   /* executions by the verified call; continuation the head item carried */
   _Bool dead; struct item snap;     /* the operand item may have been executed and destroyed by the I/O thread */
   _Bool took;                       /* execute_pending_local took the batch */
-  struct iqueue old_local; struct item* old_tail_next;
+  struct iqueue old_local;          /* harness copy of the local queue at entry (canaries only) */
   unsigned epl_calls, timers_calls, try_calls, acquire_calls; _Bool acquire_blocking_ok;
   _Bool rqrs_in;                    /* remoteQueueReadSubmitted_ when the loop body was entered */
 };
@@ -48,9 +47,10 @@ static struct io_epoll_context* currentThreadContext;   /* static thread_local i
 static struct item IT;             /* the operand item */
 static struct item W0, WT;         /* local queue window: head / tail */
 static struct item X0, XT;         /* window of a batch handed to schedule_local(queue) */
-static struct item R0;             /* an item of another producer in the remote queue */
+static struct item R0, R1;         /* items of other producers in the remote queue (oldest / newest of a batch) */
 static struct iqueue PENDING;      /* execute_pending_local's local `pending` */
 static _Bool SHOULD_STOP;          /* stop_operation::shouldStop_ (run_impl's reference parameter) */
+#define ON_IO (currentThreadContext == &S)   /* thread identity: is_running_on_io_thread() */
 static char vf_opaque_obj;
 #define OPAQUE ((struct item*)&vf_opaque_obj)
 
@@ -75,7 +75,7 @@ static void vf_guarantee(void* p, int o, int n) {
 static void vf_interfere(void) {
   void* o = S.remoteQueue_.head_;
   int k = VF_nondet_int();
-  void* n = k == 0 ? INACT : k == 1 ? NULL : k == 2 ? (void*)&R0 : o;
+  void* n = k == 0 ? INACT : k == 1 ? NULL : k == 2 ? (void*)&R0 : k == 3 ? (void*)&R1 : o;
   __CPROVER_assume(G.i_am_consumer ? AQ_RELY_CONSUMER(RQ, o, n) : AQ_RELY_PRODUCER(RQ, o, n, &IT));
   S.remoteQueue_.head_ = n;
 }
@@ -113,12 +113,14 @@ static void queue_build(struct iqueue* q, struct item* h, struct item* t) {
   else { q->head_ = h; if (VF_nondet_bool()) { h->next_ = NULL; q->tail_ = h; } else { h->next_ = VF_nondet_bool() ? t : OPAQUE; q->tail_ = t; } }
 }
 #define LOCALQ (&S.localQueue_)
-#define OLD_TAIL_NEXT (G.old_local.tail_ == &W0 ? W0.next_ : WT.next_)
-/* appended behind the old tail (FIFO): head unchanged, or the first appended node if the queue was empty */
-#define APPENDED(first, last) (S.localQueue_.tail_ == (last) && (G.old_local.head_ == NULL ? S.localQueue_.head_ == (first) \
-                               : (S.localQueue_.head_ == G.old_local.head_ && OLD_TAIL_NEXT == (first))) \
-                               && (G.old_local.tail_ == &WT ==> W0.next_ == G.old_tail_next))
-#define LOCAL_UNCHANGED (S.localQueue_.head_ == G.old_local.head_ && S.localQueue_.tail_ == G.old_local.tail_)
+#define OLD_HEAD __CPROVER_old(S.localQueue_.head_)
+#define OLD_TAIL __CPROVER_old(S.localQueue_.tail_)
+#define OLD_TAIL_NEXT (OLD_TAIL == &W0 ? W0.next_ : WT.next_)   /* the link field of the node that was the tail */
+/* appended behind the old tail (FIFO): head unchanged, or the first appended node if the queue was empty; interior links untouched */
+#define APPENDED(first, last) (S.localQueue_.tail_ == (last) && (OLD_HEAD == NULL ? S.localQueue_.head_ == (first) \
+                               : (S.localQueue_.head_ == OLD_HEAD && OLD_TAIL_NEXT == (first))) \
+                               && (OLD_TAIL == &WT ==> W0.next_ == __CPROVER_old(W0.next_)))
+#define LOCAL_UNCHANGED (S.localQueue_.head_ == OLD_HEAD && S.localQueue_.tail_ == OLD_TAIL)
 
 /* ---------------- event stubs ---------------- */
 /* write(remoteQueueEventFd_, &value, 8): wakes the loop out of epoll_wait */
@@ -133,7 +135,7 @@ static ssize_t EV_eventfd_write(struct io_epoll_context* self, uint64_t value, s
 /* execute(item): the continuation runs; it may destroy the item and may schedule further items (local queue changes) */
 static void EV_execute(struct item* item, exec_fn fn) {
   VF_CANARY("item execution reachable");
-  VF_P(G.on_io_thread, "C14: work runs on the thread inside run()");
+  VF_P(ON_IO, "C14: work runs on the thread inside run()");
   VF_P(item == &W0 && G.exec == 0, "C14-2: the item executed is the one popped from the head of the batch, once");
   VF_P(EQ_AT_EXECUTE(item, fn, G.carried), "C14-2: an item is executed with enqueued_ back to 0, next_ and execute_ cleared, through the continuation it carried");
   G.exec++; G.exec_item = item;
@@ -160,22 +162,36 @@ static _Bool AQ_enqueue(struct aq* self, struct item* it) {
   return rv;
 }
 
-struct iqueue AQ_try_mark_inactive_or_dequeue_all(struct aq* self)
-__CPROVER_requires(self == RQ && AQ_REQ_CONSUMER(RQ))
-__CPROVER_assigns(AQ_ASSIGNS_CONSUMER(RQ))
-__CPROVER_ensures(AQ_ENS_TMIODA(RQ, __CPROVER_return_value))
-;
+/* remoteQueue_.try_mark_inactive_or_dequeue_all(): contract stub (aq_contract.h): assert requires; outcome by concrete choice
+ * (sentinel installed over an empty inbox | everything taken, oldest first, the old head last); the word then moves on as
+ * the producers' steps allow; assume ensures.  Items found in the inbox were put there by schedule_remote: QUEUED */
+static struct iqueue AQ_try_mark_inactive_or_dequeue_all(struct aq* self) {
+  VF_P(G.i_am_consumer, "only the loop (the single consumer) marks the remote queue inactive or takes its contents");
+  VF_A(self == RQ && AQ_REQ_CONSUMER(RQ), "precondition of try_mark_inactive_or_dequeue_all at the call site");
+  struct iqueue r;
+  G.lin_count++; G.it_next_at_lin = NULL;
+  if (VF_nondet_bool()) { G.lin_old = NULL; G.lin_new = INACT; G.mr_arg = NULL; r.head_ = NULL; r.tail_ = NULL; }
+  else {
+    R0.enqueued_ = 1; R0.execute_ = pick_fn(); R1.enqueued_ = 1; R1.execute_ = pick_fn();
+    if (VF_nondet_bool()) { G.lin_old = (void*)&R0; R0.next_ = NULL; r.head_ = &R0; r.tail_ = &R0; }
+    else { G.lin_old = (void*)&R1; R1.next_ = NULL; R0.next_ = VF_nondet_bool() ? &R1 : OPAQUE; r.head_ = &R0; r.tail_ = &R1; }
+    G.lin_new = NULL; G.mr_calls++; G.mr_arg = (struct item*)G.lin_old;
+  }
+  S.remoteQueue_.head_ = G.lin_new;
+  vf_interfere();
+  __CPROVER_assume(AQ_ENS_TMIODA(RQ, r));
+  return r;
+}
 
 /* ---------------- functions under contract ---------------- */
 _Bool CTX_is_running_on_io_thread(struct io_epoll_context* self)
 /*@BODY is_running_on_io_thread*/
 
-#define SCHED_REQ(self, op) ((self) == &S && (op) == &IT && EQ_REQ_SCHEDULE(&IT) && G.enq_incs == 0 && G.enq_decs == 0 && G.eventfd_writes == 0 && G.lin_count == 0 && !G.dead \
-                             && G.on_io_thread == (currentThreadContext == &S))
+#define SCHED_REQ(self, op) ((self) == &S && (op) == &IT && EQ_REQ_SCHEDULE(&IT) && G.enq_incs == 0 && G.enq_decs == 0 && G.eventfd_writes == 0 && G.lin_count == 0 && !G.dead)
 
 /* schedule_local(op): I/O thread only.  enqueued_ 0 -> 1, the item becomes the tail of the local queue; no wake-up, remote queue untouched */
 void CTX_schedule_local(struct io_epoll_context* self, struct item* op)
-__CPROVER_requires(SCHED_REQ(self, op) && G.on_io_thread && QSHAPE(LOCALQ, W0, WT) && G.old_local.head_ == S.localQueue_.head_ && G.old_local.tail_ == S.localQueue_.tail_ && G.old_tail_next == W0.next_)
+__CPROVER_requires(SCHED_REQ(self, op) && ON_IO && QSHAPE(LOCALQ, W0, WT))
 __CPROVER_assigns(IT, S.localQueue_, W0.next_, WT.next_, G.enq_incs, G.enq_decs, S.remoteQueue_.head_)
 __CPROVER_ensures(EQ_ENS_ENQUEUED(&IT, __CPROVER_old(IT.enqueued_)) && G.enq_incs == 1 && G.enq_decs == 0) /* C14-2: 0 -> 1, once */
 __CPROVER_ensures(APPENDED(&IT, &IT) && IT.next_ == NULL) /* behind everything already queued (FIFO) */
@@ -186,7 +202,7 @@ __CPROVER_ensures(G.eventfd_writes == 0 && G.lin_count == 0) /* local scheduling
 /* schedule_local(queue): the whole batch goes behind the local queue, in order; nothing is dropped */
 #define OPS_WF(ops) (((ops).head_ == NULL) == ((ops).tail_ == NULL))
 void CTX_schedule_local_q(struct io_epoll_context* self, struct iqueue ops)
-__CPROVER_requires(self == &S && OPS_WF(ops) && QSHAPE(LOCALQ, W0, WT) && G.old_local.head_ == S.localQueue_.head_ && G.old_local.tail_ == S.localQueue_.tail_ && G.old_tail_next == W0.next_)
+__CPROVER_requires(self == &S && OPS_WF(ops) && QSHAPE(LOCALQ, W0, WT))
 __CPROVER_assigns(S.localQueue_, W0.next_, WT.next_)
 __CPROVER_ensures(__CPROVER_old(ops.head_) == NULL ==> (LOCAL_UNCHANGED && W0.next_ == __CPROVER_old(W0.next_) && WT.next_ == __CPROVER_old(WT.next_)))
 __CPROVER_ensures(__CPROVER_old(ops.head_) != NULL ==> APPENDED(__CPROVER_old(ops.head_), __CPROVER_old(ops.tail_))) /* the batch's first node follows the old tail, its last node is the new tail */
@@ -215,37 +231,39 @@ __CPROVER_ensures(G.dead && IT_UNTOUCHED) /* the I/O thread may already have run
 /* schedule_impl: local or remote by thread identity */
 void CTX_schedule_impl(struct io_epoll_context* self, struct item* op)
 __CPROVER_requires(SCHED_REQ(self, op) && !G.i_am_consumer && S.remoteQueue_.head_ != (void*)&IT && G.local_calls == 0 && G.remote_calls == 0)
-__CPROVER_requires(QSHAPE(LOCALQ, W0, WT) && G.old_local.head_ == S.localQueue_.head_ && G.old_local.tail_ == S.localQueue_.tail_ && G.old_tail_next == W0.next_)
+__CPROVER_requires(QSHAPE(LOCALQ, W0, WT))
 __CPROVER_assigns(IT, S.localQueue_, W0.next_, WT.next_, S.remoteQueue_.head_, G.enq_incs, G.enq_decs, G.lin_old, G.lin_new, G.lin_count, G.it_next_at_lin, G.eventfd_writes, G.eventfd_value, G.eventfd_len, G.err, G.dead, G.snap)
 __CPROVER_ensures(G.enq_incs == 1 && G.enq_decs == 0)
-__CPROVER_ensures(G.on_io_thread ==> (G.lin_count == 0 && G.eventfd_writes == 0 && APPENDED(&IT, &IT))) /* on the I/O thread: local queue, no wake-up */
-__CPROVER_ensures(!G.on_io_thread ==> (G.lin_count == 1 && LOCAL_UNCHANGED && G.eventfd_writes == (G.lin_old == INACT ? 1 : 0))) /* from any other thread: remote queue + wake protocol; the local queue (I/O thread only) is not touched */
+__CPROVER_ensures(ON_IO ==> (G.lin_count == 0 && G.eventfd_writes == 0 && APPENDED(&IT, &IT))) /* on the I/O thread: local queue, no wake-up */
+__CPROVER_ensures(!ON_IO ==> (G.lin_count == 1 && LOCAL_UNCHANGED && G.eventfd_writes == (G.lin_old == INACT ? 1 : 0))) /* from any other thread: remote queue + wake protocol; the local queue (I/O thread only) is not touched */
 /*@BODY schedule_impl*/
 
 /* execute_pending_local: takes the WHOLE local queue (items scheduled while the batch runs wait for the next round) and
  * executes every item of the batch; loop at cut points */
-#define EPL_INV (G.on_io_thread && QSHAPE(&PENDING, W0, WT) && QITEMS(&PENDING, W0, WT) && G.took)
+#define EPL_INV (ON_IO && QSHAPE(&PENDING, W0, WT) && QITEMS(&PENDING, W0, WT) && G.took)
 static void epl__loop0(struct io_epoll_context* self) {
   VF_P(EPL_INV, "cut point (execute_pending_local loop head): the rest of the batch is a well-formed queue of enqueued items");
   /* arbitrary number of iterations later: the executed items may have scheduled new ones */
   queue_build(&PENDING, &W0, &WT);
-  S.localQueue_.head_ = VF_nondet_bool() ? OPAQUE : NULL; S.localQueue_.tail_ = S.localQueue_.head_;
   __CPROVER_assume(EPL_INV && !(/*@LOOPCOND execute_pending_local.loop0.cond*/));
+  queue_build(LOCALQ, &W0, &WT);   /* whatever the executed items scheduled: a well-formed queue of enqueued items (window re-chosen) */
 }
 #define VF_EPL_LOOP G.took = 1; epl__loop0(self)
 
 void CTX_execute_pending_local(struct io_epoll_context* self)
-__CPROVER_requires(self == &S && G.on_io_thread && QSHAPE(LOCALQ, W0, WT) && QITEMS(LOCALQ, W0, WT) && !G.took && G.exec == 0 && G.enq_decs == 0 && G.enq_incs == 0 && !G.dead && PENDING.head_ == NULL && PENDING.tail_ == NULL)
-__CPROVER_assigns(S.localQueue_, PENDING, W0, WT, G.took, G.exec, G.exec_item, G.enq_decs, G.dead, G.snap, SHOULD_STOP)
+__CPROVER_requires(self == &S && ON_IO && QSHAPE(LOCALQ, W0, WT) && QITEMS(LOCALQ, W0, WT) && !G.took && G.exec == 0 && G.enq_decs == 0 && G.enq_incs == 0 && !G.dead && PENDING.head_ == NULL && PENDING.tail_ == NULL)
+__CPROVER_assigns(S.localQueue_, S.remoteQueue_.head_, PENDING, W0, WT, G.took, G.exec, G.exec_item, G.enq_decs, G.dead, G.snap, SHOULD_STOP)
 __CPROVER_ensures(G.took == (__CPROVER_old(S.localQueue_.head_) != NULL)) /* an empty queue: nothing to do */
 __CPROVER_ensures(!G.took ==> LOCAL_UNCHANGED)
 __CPROVER_ensures(PENDING.head_ == NULL && PENDING.tail_ == NULL) /* the loop leaves only when the whole batch has been popped (each pop is followed by exactly one execution: loop body unit) */
 __CPROVER_ensures(G.enq_incs == 0)
+__CPROVER_ensures(AQ_RELY_CONSUMER(RQ, __CPROVER_old(S.remoteQueue_.head_), S.remoteQueue_.head_)) /* the remote queue is left to the producers: an active queue stays active */
+__CPROVER_ensures(QSHAPE(LOCALQ, W0, WT) && QITEMS(LOCALQ, W0, WT)) /* what is left in the local queue (scheduled by the items that ran) is a well-formed queue of enqueued items */
 /*@BODY execute_pending_local*/
 
 int epl__loop0_body(struct io_epoll_context* self)
 __CPROVER_requires(self == &S && EPL_INV && (/*@LOOPCOND execute_pending_local.loop0.cond*/) && G.exec == 0 && G.enq_decs == 0 && !G.dead && G.carried == W0.execute_)
-__CPROVER_assigns(S.localQueue_, PENDING, W0, G.exec, G.exec_item, G.enq_decs, G.dead, G.snap)
+__CPROVER_assigns(S.localQueue_, S.remoteQueue_.head_, PENDING, W0, G.exec, G.exec_item, G.enq_decs, G.dead, G.snap)
 __CPROVER_ensures(__CPROVER_return_value == VF_X_CONTINUE)
 __CPROVER_ensures(G.exec == 1 && G.exec_item == &W0 && G.enq_decs == 1) /* C14-2: pops the head, 1 -> 0 exactly once, executes exactly that item once (state at the call: checked in EV_execute) */
 __CPROVER_ensures(PENDING.head_ == __CPROVER_old(W0.next_) && (PENDING.head_ == NULL ? PENDING.tail_ == NULL : PENDING.tail_ == __CPROVER_old(PENDING.tail_))) /* the rest of the batch stays, in order */
@@ -255,14 +273,16 @@ __CPROVER_ensures(G.dead && W0_UNTOUCHED) /* the executed item may be gone: neve
 /* try_schedule_local_remote_queue_contents: ONE step on the remote queue: marks the loop inactive only over an EMPTY
  * queue (returns true), otherwise takes EVERYTHING and appends it to the local queue in order (returns false) */
 _Bool CTX_try_schedule_local_remote_queue_contents(struct io_epoll_context* self)
-__CPROVER_requires(self == &S && AQ_REQ_CONSUMER(RQ) && QSHAPE(LOCALQ, W0, WT) && G.old_local.head_ == S.localQueue_.head_ && G.old_local.tail_ == S.localQueue_.tail_ && G.old_tail_next == W0.next_)
-__CPROVER_assigns(AQ_ASSIGNS_CONSUMER(RQ), S.localQueue_, W0.next_, WT.next_)
+__CPROVER_requires(G.i_am_consumer && S.remoteQueue_.head_ != INACT) /*P*/ /* C14-1: only the loop, and only while it is an ACTIVE consumer, looks into the remote queue (an inactive loop waits for its wake-up) */
+__CPROVER_requires(self == &S && AQ_REQ_CONSUMER(RQ) && QSHAPE(LOCALQ, W0, WT))
+__CPROVER_assigns(AQ_ASSIGNS_CONSUMER(RQ), S.localQueue_, W0.next_, WT.next_, R0, R1)
 __CPROVER_ensures(G.lin_count == 1)
+__CPROVER_ensures(AQ_RELY_CONSUMER(RQ, G.lin_new, S.remoteQueue_.head_)) /* afterwards only producers move the word: after taking the contents the queue stays active */
 __CPROVER_ensures(__CPROVER_return_value == 0 || __CPROVER_return_value == 1)
 __CPROVER_ensures(__CPROVER_return_value == (G.lin_new == INACT)) /* true <=> the queue was marked inactive */
 __CPROVER_ensures(__CPROVER_return_value ==> (G.lin_old == NULL && LOCAL_UNCHANGED)) /* C14-1: the loop marks itself inactive only on an empty queue */
 __CPROVER_ensures(!__CPROVER_return_value ==> (G.lin_new == NULL && G.lin_old != NULL && G.lin_old != INACT && G.mr_calls == 1 && (void*)G.mr_arg == G.lin_old \
-                   && S.localQueue_.tail_ == (struct item*)G.lin_old && S.localQueue_.head_ != NULL && (G.old_local.head_ != NULL ==> (S.localQueue_.head_ == G.old_local.head_ && OLD_TAIL_NEXT != NULL)))) /* everything that was in the inbox is now at the back of the local queue (newest item last) */
+                   && S.localQueue_.tail_ == (struct item*)G.lin_old && S.localQueue_.head_ != NULL && (OLD_HEAD != NULL ==> (S.localQueue_.head_ == OLD_HEAD && OLD_TAIL_NEXT != NULL)))) /* everything that was in the inbox is now at the back of the local queue (newest item last) */
 /*@BODY try_schedule*/
 
 /* ---- run_impl: entry / exit segment, and the loop body against the contracts of its callees ---- */
@@ -282,7 +302,7 @@ __CPROVER_ensures(QSHAPE(LOCALQ, W0, WT) && QITEMS(LOCALQ, W0, WT))
 
 /* loop invariant: the loop's flag is in step with the queue word: while the flag is clear the loop is an ACTIVE consumer
  * (the precondition of try_mark_inactive_or_dequeue_all); the local queue is well formed */
-#define RUN_INV (G.on_io_thread && G.i_am_consumer && currentThreadContext == &S && (!S.remoteQueueReadSubmitted_ ==> S.remoteQueue_.head_ != INACT) \
+#define RUN_INV (ON_IO && G.i_am_consumer && currentThreadContext == &S && (!S.remoteQueueReadSubmitted_ ==> S.remoteQueue_.head_ != INACT) \
                  && QSHAPE(LOCALQ, W0, WT) && QITEMS(LOCALQ, W0, WT))
 static int run__loop0(struct io_epoll_context* self, const _Bool* shouldStop) {
   VF_P(RUN_INV, "cut point (run loop head): flag in step with the remote queue, local queue well formed");
@@ -296,8 +316,8 @@ static int run__loop0(struct io_epoll_context* self, const _Bool* shouldStop) {
 #define VF_RUN_LOOP run__loop0(self, shouldStop)
 
 void CTX_run_impl(struct io_epoll_context* self, const _Bool* shouldStop)
-__CPROVER_requires(self == &S && shouldStop == &SHOULD_STOP && G.i_am_consumer && !S.remoteQueueReadSubmitted_ && S.remoteQueue_.head_ != INACT && QSHAPE(LOCALQ, W0, WT) && QITEMS(LOCALQ, W0, WT) && !G.on_io_thread)
-__CPROVER_assigns(currentThreadContext, S, W0, WT, SHOULD_STOP, G.on_io_thread)
+__CPROVER_requires(self == &S && shouldStop == &SHOULD_STOP && G.i_am_consumer && !S.remoteQueueReadSubmitted_ && S.remoteQueue_.head_ != INACT && QSHAPE(LOCALQ, W0, WT) && QITEMS(LOCALQ, W0, WT) && !ON_IO)
+__CPROVER_assigns(currentThreadContext, S, W0, WT, SHOULD_STOP)
 __CPROVER_ensures(currentThreadContext == __CPROVER_old(currentThreadContext)) /* thread identity restored on the way out */
 __CPROVER_ensures(SHOULD_STOP) /* run() returns only after the stop operation was executed */
 /*@BODY run_impl*/
@@ -305,10 +325,10 @@ __CPROVER_ensures(SHOULD_STOP) /* run() returns only after the stop operation wa
 int run__loop0_body(struct io_epoll_context* self, const _Bool* shouldStop)
 __CPROVER_requires(self == &S && shouldStop == &SHOULD_STOP && RUN_INV && (/*@LOOPCOND run_impl.loop0.cond*/) && G.lin_count == 0 && G.mr_calls == 0 && !G.took && G.exec == 0 && G.enq_decs == 0 && G.enq_incs == 0 && !G.dead \
                    && PENDING.head_ == NULL && PENDING.tail_ == NULL && G.acquire_calls == 0 && G.rqrs_in == S.remoteQueueReadSubmitted_ && G.timers_calls == 0)
-__CPROVER_assigns(S, W0, WT, PENDING, SHOULD_STOP, G)
+__CPROVER_assigns(S, W0, WT, R0, R1, PENDING, SHOULD_STOP, G)
 __CPROVER_ensures(__CPROVER_return_value == VF_X_BREAK || __CPROVER_return_value == VF_X_CONTINUE)
 __CPROVER_ensures(__CPROVER_return_value == VF_X_BREAK ==> SHOULD_STOP) /* the loop is left only when the stop operation has run */
-__CPROVER_ensures(__CPROVER_return_value == VF_X_CONTINUE ==> (G.on_io_thread && G.i_am_consumer && (!S.remoteQueueReadSubmitted_ ==> S.remoteQueue_.head_ != INACT) && QSHAPE(LOCALQ, W0, WT) && QITEMS(LOCALQ, W0, WT))) /* invariant re-established */
+__CPROVER_ensures(__CPROVER_return_value == VF_X_CONTINUE ==> (ON_IO && G.i_am_consumer && (!S.remoteQueueReadSubmitted_ ==> S.remoteQueue_.head_ != INACT) && ((S.localQueue_.head_ == NULL) == (S.localQueue_.tail_ == NULL)))) /* invariant re-established (the local queue is well formed; the window is re-chosen at the next cut point) */
 __CPROVER_ensures((__CPROVER_return_value == VF_X_CONTINUE && !G.rqrs_in && G.acquire_calls == 1) ==> (G.lin_count == 1 && G.lin_new == INACT && G.lin_old == NULL)) /* C14-1: the loop reaches epoll_wait only after ITS mark-inactive step found the remote queue empty */
 __CPROVER_ensures((__CPROVER_return_value == VF_X_CONTINUE && G.rqrs_in) ==> G.lin_count == 0) /* while marked inactive the loop does not touch the remote queue (it waits for the wake-up) */
 /*@LOOPBODY run_impl.loop0.body*/
@@ -317,18 +337,18 @@ __CPROVER_ensures((__CPROVER_return_value == VF_X_CONTINUE && G.rqrs_in) ==> G.l
 static void h_init(void) {
   ctx_init(&S);
   G.i_am_consumer = 0; G.lin_old = NULL; G.lin_new = NULL; G.lin_count = 0; G.it_next_at_lin = NULL; G.mr_calls = 0; G.mr_arg = NULL;
-  G.on_io_thread = VF_nondet_bool(); currentThreadContext = G.on_io_thread ? &S : NULL;
+  currentThreadContext = VF_nondet_bool() ? &S : NULL;
   G.err = 0; G.enq_incs = 0; G.enq_decs = 0; G.eventfd_writes = 0; G.eventfd_value = 0; G.eventfd_len = 0; G.local_calls = 0; G.remote_calls = 0; G.signal_calls = 0;
   G.exec = 0; G.exec_item = NULL; G.dead = 0; G.took = 0; G.epl_calls = 0; G.timers_calls = 0; G.try_calls = 0; G.acquire_calls = 0;
   PENDING.head_ = NULL; PENDING.tail_ = NULL; SHOULD_STOP = VF_nondet_bool();
   item_init(&IT); IT.execute_ = pick_fn();
   queue_build(LOCALQ, &W0, &WT);
-  G.old_local = S.localQueue_; G.old_tail_next = W0.next_;
+  G.old_local = S.localQueue_;
   int k = VF_nondet_int();
   S.remoteQueue_.head_ = k == 0 ? INACT : k == 1 ? NULL : (void*)&R0;
   S.remoteQueueReadSubmitted_ = (S.remoteQueue_.head_ == INACT);
 }
-void h_schedule_local(void) { h_init(); G.on_io_thread = 1; currentThreadContext = &S; CTX_schedule_local(&S, &IT); VF_CANARY("after schedule_local"); if (G.old_local.head_ == NULL) { VF_CANARY("schedule_local into an empty queue"); } else { VF_CANARY("schedule_local into a non-empty queue"); } }
+void h_schedule_local(void) { h_init(); currentThreadContext = &S; CTX_schedule_local(&S, &IT); VF_CANARY("after schedule_local"); if (G.old_local.head_ == NULL) { VF_CANARY("schedule_local into an empty queue"); } else { VF_CANARY("schedule_local into a non-empty queue"); } }
 void h_schedule_local_q(void) {
   h_init();
   struct iqueue ops; queue_build(&ops, &X0, &XT);
@@ -338,7 +358,7 @@ void h_schedule_local_q(void) {
 }
 void h_signal_remote_queue(void) { h_init(); CTX_signal_remote_queue(&S); VF_CANARY("after signal_remote_queue"); }
 void h_schedule_remote(void) {
-  h_init(); G.on_io_thread = VF_nondet_bool(); currentThreadContext = G.on_io_thread ? &S : NULL;
+  h_init(); currentThreadContext = VF_nondet_bool() ? &S : NULL;
   CTX_schedule_remote(&S, &IT);
   VF_CANARY("after schedule_remote");
   if (G.eventfd_writes) { VF_CANARY("schedule_remote can wake the loop"); } else { VF_CANARY("schedule_remote can find the loop active"); }
@@ -346,12 +366,12 @@ void h_schedule_remote(void) {
 void h_schedule_impl(void) {
   h_init(); CTX_schedule_impl(&S, &IT);
   VF_CANARY("after schedule_impl");
-  if (G.on_io_thread) { VF_CANARY("schedule_impl can schedule locally"); } else { VF_CANARY("schedule_impl can schedule remotely"); }
+  if (ON_IO) { VF_CANARY("schedule_impl can schedule locally"); } else { VF_CANARY("schedule_impl can schedule remotely"); }
 }
-void h_execute_pending_local(void) { h_init(); G.on_io_thread = 1; currentThreadContext = &S; CTX_execute_pending_local(&S); VF_CANARY("after execute_pending_local"); if (G.took) { VF_CANARY("execute_pending_local can take a batch"); } else { VF_CANARY("execute_pending_local can find the queue empty"); } }
+void h_execute_pending_local(void) { h_init(); currentThreadContext = &S; G.i_am_consumer = 1; CTX_execute_pending_local(&S); VF_CANARY("after execute_pending_local"); if (G.took) { VF_CANARY("execute_pending_local can take a batch"); } else { VF_CANARY("execute_pending_local can find the queue empty"); } }
 void h_epl_loop0_body(void) {
   struct io_epoll_context* self = &S;
-  h_init(); G.on_io_thread = 1; currentThreadContext = &S; G.took = 1;
+  h_init(); currentThreadContext = &S; G.i_am_consumer = 1; G.took = 1;
   queue_build(&PENDING, &W0, &WT); S.localQueue_.head_ = NULL; S.localQueue_.tail_ = NULL;
   __CPROVER_assume(/*@LOOPCOND execute_pending_local.loop0.cond*/);
   G.carried = W0.execute_;
@@ -360,20 +380,20 @@ void h_epl_loop0_body(void) {
   if (PENDING.head_ == NULL) { VF_CANARY("the iteration can empty the batch"); } else { VF_CANARY("the iteration can leave items in the batch"); }
 }
 void h_try_schedule(void) {
-  h_init(); G.i_am_consumer = 1; G.on_io_thread = 1; currentThreadContext = &S;
+  h_init(); G.i_am_consumer = 1; currentThreadContext = &S;
   __CPROVER_assume(S.remoteQueue_.head_ != INACT); S.remoteQueueReadSubmitted_ = 0;
   _Bool r = CTX_try_schedule_local_remote_queue_contents(&S);
   VF_CANARY("after try_schedule_local_remote_queue_contents");
   if (r) { VF_CANARY("the loop can mark itself inactive"); } else { VF_CANARY("the loop can take remote items"); }
 }
 void h_run_impl(void) {
-  h_init(); G.i_am_consumer = 1; G.on_io_thread = 0; currentThreadContext = VF_nondet_bool() ? (struct io_epoll_context*)&vf_opaque_obj : NULL;
+  h_init(); G.i_am_consumer = 1; currentThreadContext = VF_nondet_bool() ? (struct io_epoll_context*)&vf_opaque_obj : NULL;
   __CPROVER_assume(S.remoteQueue_.head_ != INACT); S.remoteQueueReadSubmitted_ = 0;
   CTX_run_impl(&S, &SHOULD_STOP);
   VF_CANARY("after run_impl");
 }
 void h_run_loop0_body(void) {
-  h_init(); G.i_am_consumer = 1; G.on_io_thread = 1; currentThreadContext = &S;
+  h_init(); G.i_am_consumer = 1; currentThreadContext = &S;
   G.rqrs_in = S.remoteQueueReadSubmitted_;
   int r = run__loop0_body(&S, &SHOULD_STOP);
   if (r == VF_X_BREAK) { VF_CANARY("the run loop can stop"); }
